@@ -24,6 +24,7 @@ seq <i> <client> <T> <K>                             -> <i> ok <T*K>
 seqbig <i> <client> <T> <K> <nbig>                   -> <i> ok <T*K>   (ws: oversized requests refused meanwhile)
 fwd <i> 1 <ids|dup|reuse>                            -> <i> ok         (forward_message, caller-chosen ids)
 life <i> <client> <seed>                             -> <i> ok         (one client, long mixed sequence)
+lates <i> <client> <K> <late|unknown|dup>            -> <i> pending own later own
 fwdres <i> 1                                         -> <i> ok         (forward timed out / cancelled: no residue)
 sched <i> <client> <N> <S0,W0,Fr0,D,T0,C0,X,A,..>    -> <i> got <tag|T|E|HANG|->,.. gates <m|u|n>,..
       (forced on the real client through the verif-hooks probe points, see fam_mux.rs `mod sched`)
@@ -66,6 +67,7 @@ def parseTok (ids : List Nat) (unknownBase : Nat) (tag : Nat) (t : String) : Opt
   let n := (t.drop 1).toNat?
   match t.front, n with
   | 'e', some k => some { id := unknownBase + k, notify := false, tag := tag }   -- unknown id, ec != 0
+  | 'b', some k => some { id := unknownBase + k, notify := false, tag := tag }   -- unknown id, large body
   | 'v', some c => (ids[c]?).map fun id => { id := id, notify := false, tag := 900000 + tag }  -- wrong version: the call fails
   | 'r', some c => (ids[c]?).map fun id => { id := id, notify := false, tag := tag }
   | 'n', some c => (ids[c]?).map fun id => { id := id, notify := true, tag := tag }
@@ -245,6 +247,31 @@ def runWtmo (cfg : Cfg) (n : Nat) : String :=
   let s := callers.foldl (fun s c => step cfg s (.recv c)) s
   "small " ++ ",".intercalate (callers.map fun c => showDead false (s.calls c)) ++ " big " ++ showDead false (s.calls 7)
 
+/-- `k` frames in a row that nobody waits for (late answers of timed-out calls / unknown ids /
+duplicates) while call 0 is pending, then its reply, then a later call. -/
+def runLates (cfg : Cfg) (k : Nat) (shape : String) : String :=
+  let s := [Ev.alloc 0, .register 0, .write 0].foldl (step cfg) State.init
+  let callers := (List.range k).map (· + 1)
+  let s :=
+    if shape == "late" then
+      let s := callers.foldl (fun s c => [Ev.alloc c, .register c, .write c, .timeout c, .cleanup c].foldl (step cfg) s) s
+      callers.foldl (fun s c => [Ev.rmatch { id := (s.calls c).id, notify := false, tag := c }, .deliver].foldl (step cfg) s) s
+    else if shape == "dup" then
+      let s := [Ev.alloc 1, .register 1, .write 1].foldl (step cfg) s
+      let s := [Ev.rmatch { id := (s.calls 1).id, notify := false, tag := 1 }, .deliver, .recv 1].foldl (step cfg) s
+      callers.foldl (fun s _ => [Ev.rmatch { id := (s.calls 1).id, notify := false, tag := 1 }, .deliver].foldl (step cfg) s) s
+    else
+      callers.foldl (fun s j => [Ev.rmatch { id := 2000000000 + j, notify := false, tag := j }, .deliver].foldl (step cfg) s) s
+  let s := [Ev.rmatch { id := (s.calls 0).id, notify := false, tag := 0 }, .deliver, .recv 0].foldl (step cfg) s
+  let l := k + 2
+  let s := [Ev.alloc l, .register l, .write l].foldl (step cfg) s
+  let s := [Ev.rmatch { id := (s.calls l).id, notify := false, tag := l }, .deliver, .recv l].foldl (step cfg) s
+  let sh (c : Nat) : String := match (s.calls c).pc with
+    | .returned (.resp f) => if f.tag == c then "own" else "Err"
+    | .returned _ => "Err"
+    | _ => "HANG"
+  "pending " ++ sh 0 ++ " later " ++ sh l
+
 /-! ### `sched`: the action lists forced on the real clients through the probe points -/
 
 /-- Steps of the failure path that execute no statement of `fail_all_pending` (an empty send loop,
@@ -321,6 +348,13 @@ def runSched (cfg : Cfg) (n : Nat) (acts : List String) : String :=
 def stepLine (_ : Unit) (ws : List String) : Unit × String :=
   let bad (i : String) := ((), i ++ " bad-op")
   match ws with
+  | ["case", i, client, n, ids, script, _vars, _frag] =>
+    -- `_frag`: how the peer cut its writes into pieces (TCP): invisible above the framing layer
+    match cfgOf (natOf client) with
+    | none => bad i
+    | some cfg =>
+      let idl := (splitCommas ids).map natOf
+      if idl.length ≠ natOf n then bad i else ((), i ++ " " ++ runCase cfg idl (splitCommas script))
   | ["case", i, client, n, ids, script, _vars] =>
     -- `_vars`: the public entry point each caller used (call_json, call_typed_beve, registry_read, …):
     -- all of them go through the same call path of the model
@@ -375,6 +409,10 @@ def stepLine (_ : Unit) (ws : List String) : Unit × String :=
       let a := runTmo cfg "late"
       let b := runCancel cfg "wait"
       ((), i ++ (if a == "first Timeout next own" && b == "cancelled next own residue 0" && runSeq cfg 4 == "ok 4" then " ok" else " bad"))
+  | ["lates", i, client, k, shape] =>
+    match cfgOf (natOf client) with
+    | none => bad i
+    | some cfg => ((), i ++ " " ++ runLates cfg (natOf k) shape)
   | ["fwdres", i, client] =>
     match cfgOf (natOf client) with
     | none => bad i
